@@ -4,7 +4,11 @@ import (
 	"bytes"
 	"fmt"
 	"sort"
+	"strconv"
 	"strings"
+	"sync"
+
+	pbsubstreams "github.com/streamingfast/substreams/pb/sf/substreams/v1"
 
 	"connectrpc.com/connect"
 	"github.com/streamingfast/bstream"
@@ -23,9 +27,42 @@ func viol(prop, class, format string, a ...any) *Violation {
 	return &Violation{Prop: prop, Class: class, Detail: fmt.Sprintf(format, a...), ReqIdx: -1}
 }
 
+type storeMetaT struct {
+	setSum bool
+	float  bool
+}
+
+var storeMetaCache sync.Map // *PkgDef -> map[string]storeMetaT
+
+func storeMeta(pkg *PkgDef, store string) storeMetaT {
+	if v, ok := storeMetaCache.Load(pkg); ok {
+		return v.(map[string]storeMetaT)[store]
+	}
+	m := map[string]storeMetaT{}
+	for _, mod := range pkg.Modules().Modules {
+		if ks := mod.GetKindStore(); ks != nil {
+			m[mod.Name] = storeMetaT{
+				setSum: ks.UpdatePolicy == pbsubstreams.Module_KindStore_UPDATE_POLICY_SET_SUM,
+				float:  strings.EqualFold(ks.ValueType, "float64"),
+			}
+		}
+	}
+	storeMetaCache.Store(pkg, m)
+	return m[store]
+}
+
+// normSetSum reduces a stored value to its typed value: the set:/sum: tag of set_sum stores is dropped
+// (squashing turns set: into sum: by design), and float64 values are re-rendered canonically (the write
+// path formats with 100 digits of precision, the merge path with the shortest representation).
 func normSetSum(pkg *PkgDef, store string, v []byte) []byte {
-	if m := pkg.Mod(store); m != nil && m.Spec.Policy == "setsum" {
-		return stripSetSum(v)
+	meta := storeMeta(pkg, store)
+	if meta.setSum {
+		v = stripSetSum(v)
+	}
+	if meta.float && len(v) > 0 {
+		if f, err := strconv.ParseFloat(string(v), 64); err == nil {
+			return []byte(strconv.FormatFloat(f, 'g', -1, 64))
+		}
 	}
 	return v
 }
